@@ -188,6 +188,20 @@ CHECKS = {
    design_ref='DESIGN.md §5 C17',
    note=COMMON_NOTE + "The standard model of floating-point arithmetic is a hypothesis of the theorem (it is not proved for the executable roundF64, which is validated against CPython instead). "
         "Where more than 8 decimals would be needed (denominators above the coin unit) any correct rounding of the last shown digit is accepted. Non-negativity of output and fee amounts is checked under C07."),
+ 'C16': dict(
+   technique='Lean 4 theorems (slot/taint invariant over all call histories: only slots cleared by public() can hold secret-derived data) + per-attribute taint measurement and every-encoding scan of all public views of real objects',
+   text=("Proved in Lean on a slot/taint abstraction of Key/HDKey: for EVERY history of method calls (wif, address, hash160, as_dict with and "
+         "without private data, info, public_point) only slots in the set that public() clears can hold secret-derived data, hence the public "
+         "view is clean whatever was called before; with the clearing set of the pinned tree the history [wif] (or [info] on an HDKey) leaves the "
+         "private WIF behind (F12 witness). The harness measures the same thing on real objects: after random histories it determines, per "
+         "attribute, whether ANY encoding of the secret (raw, hex, HEX, decimal, WIF compressed/uncompressed for every network, extended private "
+         "key for every private version) is reachable, compares the tainted sets of the private object and of its public() view with the model, "
+         "and scans pickle, deepcopy + attribute walk, repr, str, as_dict, as_json, info() output, wif_public of the public view, the default "
+         "exports of private objects, wallets (repr of keys, as_dict/as_json/info, public_master, watch-only wallets) and the sqlite file written "
+         "with DB_FIELD_ENCRYPTION_KEY set. Found and fixed: F12, F22."),
+   design_ref='DESIGN.md §5 C16',
+   note=COMMON_NOTE + "The object walk enumerates what Python exposes (__dict__ of bitcoinlib objects, containers, pickle bytes); it is not a proof about the interpreter. "
+        "info(), wif(), as_dict(include_private=True) of a PRIVATE object are explicit private exports, not public views."),
 }
 
 NOT_YET = {}
